@@ -195,12 +195,14 @@ CHECKS = {
             plain("regress", "^TestRegressC11"),
             rapid("sequential", "^TestC11Sequential$", 6000, 3),
             rapid("logger", "^TestC11Logger$", 3000, 1),
+            rapid("config", "^TestC11Config$", 2000, 1),
             rapid("concurrent", "^TestC11Concurrent$", 300, 2),
         ],
         "thorough": [
             plain("regress", "^TestRegressC11"),
             rapid("sequential", "^TestC11Sequential$", 100000, 12, timeout=3000),
             rapid("logger", "^TestC11Logger$", 50000, 2, timeout=3000),
+            rapid("config", "^TestC11Config$", 50000, 2, timeout=3000),
             rapid("concurrent-race", "^TestC11Concurrent$", 3000, 8, race=True, timeout=3000),
         ],
     },
